@@ -13,9 +13,12 @@ MIRRORS = {
             ("c14", {"C14.convert": ("C01.chain", "WindowedGraph.to_graph")}, ()), ("c03", {"C03.window": "C01.protocol"}, ()),
             ("c07", {"C07.modes": ("C01.chain", "episode order")}, ()),
             # what a replayed step reads is what the producers wrote where the readers look: the ring writers
-            ("c08", {"C08.writers": "C01.buffer"}, ())],
+            ("c08", {"C08.writers": "C01.buffer"}, ()),
+            # a default-length rollout stays inside the compiled horizon (a run past it rewrites the last step's output and record)
+            ("c09", {"C09.api": ("C01.chain", "rollout:default")}, ())],
     # what a selector takes depends on the queued times only (tie tables), and nothing of an earlier episode survives a reset
-    "C02": [("c03", {"C03.tie": "C02.future"}, ()), ("c05", {"C05.reset": "C02.handoff"}, ())],
+    # ... and a lifecycle call returns only after the tasks queued before it have run (the stopping task goes through the executor)
+    "C02": [("c03", {"C03.tie": "C02.future"}, ()), ("c05", {"C05.reset": "C02.handoff", "C05.typestate": ("C02.handoff", "flip-submit:")}, ())],
     # a blocking step waits for the arrival of every message it consumes
     # ... and nothing handed to a connection that is ready to receive (READY or RUNNING) is dropped on the way
     "C03": [("c04", {"C04.ts_max": "C03.overlap"}, ()), ("c05", {"C05.typestate": ("C03.counter", "gate:conn")}, ())],
@@ -32,19 +35,26 @@ MIRRORS = {
             # ... and the generated simulation graphs use each node's configured computation delay
             ("c12", {"C12.scan": ("C16.bind", "each node is generated")}, ())],
     # every partition is selected once (clip of the step counter) and every generation of it is visited once, in order
-    "C06": [("c09", {"C09.clip": "C06.count"}, ()), ("c07", {"C07.order": "C06.count"}, ())],
+    # run() performs both stages on every call: the last partition of the horizon included
+    "C06": [("c09", {"C09.clip": "C06.count", "C09.api": ("C06.count", "run")}, ()), ("c07", {"C07.order": "C06.count"}, ())],
     # window length of a trainable connection
     "C07": [("c10", {"C10.window": "C07.window"}, ()),
             # a scheduled vertex runs: the only slots a generation passes over are the supervisor's and those of the kinds the user skips
             ("c06", {"C06.count": ("C07.order", "_run_generation: only")}, ()),
             # the dependency graph carries every message of every window; every partition of the horizon can be selected
-            ("c14", {"C14.convert": ("C07.edges", "WindowedGraph.to_graph")}, ()), ("c09", {"C09.clip": "C07.order"}, ())],
+            ("c14", {"C14.convert": ("C07.edges", "WindowedGraph.to_graph")}, ()), ("c09", {"C09.clip": "C07.order"}, ()),
+            # supervisor step p closes partition p under its own scheduled sequence number (what the windows of later partitions name)
+            ("c08", {"C08.writers": ("C07.order", "_update_state writes")}, ())],
     # a window names producers that ran before the reader (the dependency graph has every window entry); a new episode starts from the
     # stored initial state, rings included
-    "C08": [("c14", {"C14.convert": ("C08.order", "WindowedGraph.to_graph")}, ()), ("c19", {"C19.autoreset": ("C08.writers", "graph state")}, ())],
+    # ... the trainable-delay sub-window is one slice of all four columns of the gathered window
+    "C08": [("c14", {"C14.convert": ("C08.order", "WindowedGraph.to_graph")}, ()), ("c19", {"C19.autoreset": ("C08.writers", "graph state")}, ()),
+            ("c10", {"C10.window": ("C08.map", "zoh slice")}, ())],
     # the delay given to init() through the params is the one the steps see
     # ... and every step sees the sequence number of its slot, whichever step the episode was started from
-    "C09": [("c10", {"C10.apply": "C09.params"}, ()), ("c06", {"C06.result": ("C09.api", "_run_node: step sees")}, ())],
+    # ... the supervisor's output is filed under the step's scheduled sequence number whoever supplies it; a node's step result is carried on whole
+    "C09": [("c10", {"C10.apply": "C09.params"}, ()), ("c06", {"C06.result": ("C09.api", "_run_node: step sees")}, ()),
+            ("c08", {"C08.writers": ("C09.api", "_update_state writes")}, ()), ("c13", {"C13.origin": ("C09.api", "compiled state chain")}, ())],
     # recorded times are the times the step used
     "C13": [("c04", {"C04.record": "C13.origin"}, ())],
     # a trainable delay stays inside [min, max] (>= 0)
